@@ -1131,6 +1131,10 @@ func addTagDelta(newBlockE, curBlockE Elements, tagDelta map[Tag]tagDeltaT) {
 		for _, tag := range removed {
 			td, found := tagDelta[tag]
 			if found {
+				// An entry created while adding elements for this tag has no erase set yet.
+				if td.erase == nil {
+					td.erase = make(map[string]struct{})
+				}
 				td.erase[zyx] = struct{}{}
 			} else {
 				td.erase = map[string]struct{}{
